@@ -29,6 +29,7 @@ CHECKS = {
     "C17": ("p_engine", "c17"),
     "C11": ("p_mp", "c11"),
     "C18": ("p_mp", "c18"),
+    "C12": ("p_split", "c12"),
 }
 
 
